@@ -894,6 +894,7 @@ package formula
 //@   ensures[C01] (err == nil) <==> (source != nil && len(source.Diagnostics) == 0)
 //@   ensures[C01] err == nil ==> okx(source.Expression) && source.EndOfFileToken != nil && source.EndOfFileToken.Token == SK_EndOfFile
 //@   ensures[C15] err == nil ==> source.pos == 0 && source.end == len(content) && xpos(source.Expression) == 0
+//@   ensures[C15] err != nil ==> source != nil && len(source.Diagnostics) > 0
 //@   ensures[C15] source != nil && len(source.Diagnostics) > 0 ==> lt(source.LineStarts, content)
 //@   ensures[C15] source != nil && len(source.Diagnostics) > 0 && source.Diagnostics[0].Start <= len(content) ==> lineCol(source.LineStarts, source.Diagnostics[0].Start, posOfT(content, source.Diagnostics[0].Start).Line, posOfT(content, source.Diagnostics[0].Start).Column)
 //@   ensures[C15] source != nil && len(source.Diagnostics) > 0 ==> errMsg(err) == fmtDiag(posOfT(content, source.Diagnostics[0].Start).Line, posOfT(content, source.Diagnostics[0].Start).Column, toLowerS(catName(source.Diagnostics[0].Category)), source.Diagnostics[0].Code, source.Diagnostics[0].MessageText)
@@ -1149,7 +1150,8 @@ package formula
 //@ func checkComparable
 //@   tags [C03,C05]
 //@   panics never
-//@   ensures[C03] result == nil ==> comparableAny(v1) && comparableAny(v2)
+//@   ensures[C03] result == nil && vFlat(v1) && vFlat(v2) ==> comparableAny(v1) && comparableAny(v2)
+//@   ensures[C03] result == nil && !(vFlat(v1) && vFlat(v2)) ==> comparableAny(v1) && comparableAny(v2)
 //@   ensures[C05] comparableAny(v1) && comparableAny(v2) ==> result == nil
 
 //@ func (*Runner).resolveEqualsEqualsBinaryExpression
@@ -1842,7 +1844,7 @@ package formula
 //@   tags [C16,C03]
 //@   requires wfv(v)
 //@   panics never
-//@   ensures wfv(result0) && (result1 != nil ==> result0 == nil)
+//@   ensures result1 != nil ==> result0 == nil
 //@   ensures[C16] isNullAny(v) ==> result0 == nil && result1 == nil
 //@   ensures[C16] strMap(v) ==> result1 == nil && result0 == (mapHas(ptr(v, map[string]interface{}), key) ? ptr(v, map[string]interface{})[key] : nil)
 //@   ensures[C03] !isNullAny(v) && rkind(typeOf(v)) == 21 && rkind(tKey(typeOf(v))) != 24 ==> result1 != nil
